@@ -1,6 +1,9 @@
 use super::{edge_traversal::EdgeTraversal, search_tree_branch::SearchTreeBranch};
 use crate::model::network::vertex_id::VertexId;
+#[cfg(not(all(kani, feature = "verif-models")))]
 use std::collections::HashMap;
+#[cfg(all(kani, feature = "verif-models"))]
+use crate::util::verif_collections::HashMap;
 
 #[derive(Default)]
 pub struct SearchAlgorithmResult {
